@@ -39,18 +39,20 @@ func init() {
 		Rule: "Each case is one history on the real app (1-2 EVM chains, 4-6 validators): natural bring-up (initial compass upload attested), then a seed-determined list of attestation rounds. " +
 			"A round = one queued message (UploadSmartContract, UpdateValset, SubmitLogicCall via scheduler job, UploadUserSmartContract, CompassHandover after a governance compass upgrade) driven through estimates, signatures, relay and evidence by >= 2/3 of the shares, " +
 			"with a proof transaction of a chosen class: faithful (all / shorter prefix of signatures, late signatures, EIP-1559, older valset), one or several corruptions out of a catalogue of 36 field- and byte-level corruptions, receipt status 0 / pre-Byzantium root / missing receipt, " +
-			"a transaction accepted earlier (same call data for a second message, other message, same block for two messages), relayer naming a non-existent valset. " +
+			"a transaction accepted earlier (same call data for a second message, other message, same block for two messages), relayer naming a non-existent valset; " +
+			"in some rounds the validators outside the >= 2/3 majority (the relayer among them where the stake allows) report the same transaction with the opposite receipt status, after the majority, before it in the same block, or one block earlier. " +
 			"A round is distinct & non-trivial by (action, call-data class, receipt class, reuse class, signatures used/collected, late signatures, outcome) and only counted when the attestation code actually ran on it. " +
 			"'evaluations' = accept/reject decisions compared with the reference verdict + success-effect events attributed.",
 		Assumptions: []string{
-			">= 2/3 of the snapshot shares report the identical proof in every round (what the evidence consensus of C04 delivers)",
+			">= 2/3 of the snapshot shares report the identical proof (the true transaction and its true receipt) in every round; validators outside that majority are silent or report the same transaction with the opposite receipt status, in any order of submission",
 			"the validator set of the encoding is the one the chain hands out for the valset id the relayer published with the tx hash (GetValsetByID); a valset id without snapshot names no validator set",
 			"accept/reject of the attestation: 'the attester ran and its cache context was committed' is read from state (the relay record routerAttester writes into the metrix history of the assignee for the message id), 'rejected' from the module's own log lines ('Failed to verify transaction integrity.' / 'Transaction execution failed' / 'Failed to get transaction receipt'); success effects are read from state",
 		},
-		Cases:       cases,
-		Run:         run,
-		MinCounters: []string{"rounds_attested", "accepted_valid_proofs", "rejected_invalid_proofs", "effects_after_valid_proof", "accepted/" + actUpload, "accepted/" + actValset, "accepted/" + actSLC, "accepted/" + actUser, "accepted/" + actHandover},
-		Workers:     16, TimeoutS: 1500,
+		Cases: cases,
+		Run:   run,
+		MinCounters: []string{"rounds_attested", "accepted_valid_proofs", "rejected_invalid_proofs", "effects_after_valid_proof", "accepted/" + actUpload, "accepted/" + actValset, "accepted/" + actSLC, "accepted/" + actUser, "accepted/" + actHandover,
+			"rounds_forged_success_receipt_reported_first"},
+		Workers: 16, TimeoutS: 1500,
 	})
 }
 
@@ -113,6 +115,14 @@ func templates(r *rand.Rand) (uploads, others, stuck []roundPlan) {
 			roundPlan{Action: act, Receipt: rcPostState},
 			roundPlan{Action: act, Receipt: rcStatus0, Corrupt: []string{names[r.Intn(len(names))]}},
 		)
+		// the validators disagree about the receipt of the SAME transaction and the minority (with
+		// the relayer, if the others reach 2/3 without it) is on record first: forged success
+		// against a reverted tx (same block / one block earlier), forged failure against a good one
+		others = append(others,
+			roundPlan{Action: act, Receipt: rcStatus0, Dissent: true, DissentOrder: dissentFirst},
+			roundPlan{Action: act, Receipt: rcStatus0, Dissent: true, DissentOrder: dissentEarlier, Early: 2, Late: 1},
+			roundPlan{Action: act, Dissent: true, DissentOrder: dissentFirst, Early: 3, Used: 2},
+		)
 		// relayer names a valset id that does not exist; the tx carries an empty consensus
 		others = append(others, roundPlan{Action: act, PA: "zero"}, roundPlan{Action: act, PA: "unknown", Early: 2})
 		// rounds after which the message stays in the attestation loop
@@ -130,6 +140,9 @@ func templates(r *rand.Rand) (uploads, others, stuck []roundPlan) {
 	uploads = append(uploads,
 		roundPlan{Action: actUpload, Receipt: rcStatus0},
 		roundPlan{Action: actUpload, Receipt: rcPostState, Dissent: true},
+		roundPlan{Action: actUpload, Receipt: rcStatus0, Dissent: true, DissentOrder: dissentFirst},
+		roundPlan{Action: actUpload, Receipt: rcStatus0, Dissent: true, DissentOrder: dissentEarlier},
+		roundPlan{Action: actUpload, Dissent: true, DissentOrder: dissentFirst},
 		roundPlan{Action: actUpload, Corrupt: []string{"upload-bytecode", "trailing-bytes"}},
 		roundPlan{Action: actUpload, Corrupt: []string{"upload-constructor-args", "truncated"}, Receipt: rcStatus0},
 	)
